@@ -420,6 +420,17 @@ def run(rec, cfg):
             if S.kind(root) != "Equal":
                 drive_predicates(rec, rng, root)
                 rec.arm("like:long-expression")
+    if cfg.shard == 5 % cfg.nshards:
+        big9 = "9" * 400
+        for t in (f"x^({big9}/2) + 3x", f"x^(1/{big9}) + x^(1/{big9})", f"2x^({big9}/{big9}) + x", "x^(1/0) + x^(1/0)", f"x^({big9}) + 3x^({big9})", f"{big9}x + {big9}.5x",
+                  f"x^(2^{big9[:3]}) + x", f"(x + {big9})^2 + x", f"x^-{big9} + x^-{big9}"):
+            try:
+                root = D.parse(t)
+            except Exception:
+                continue
+            drive_predicates(rec, rng, root)
+            check_alike(rec, rng, root)
+            rec.arm("like:huge-literals")
     # the relation on a grid of exponent pairs (equal, adjacent, and close relative to their size)
     grid_e = ["2", "3", "0", "1", "-1", "-2", "0.5", "2.5", "99999", "100000", "100001", "199999", "200001", "2.00001", "2.00002", "1000000", "1000001", "0.1", "0.10000001"]
     k = 0
